@@ -48,13 +48,47 @@ def run_worker(spec, timeout=300):
         return {"inconclusive": f"unparsable worker output {e}: {p.stdout[:200]!r} {p.stderr[-300:]!r}"}
 
 
+DUMPER = r"""
+import sys, json, base64, pickle, random
+sys.path.insert(0, sys.argv[1])
+from vmon import boot, model, gen
+b = boot.boot()
+mdl = model.Model(b)
+pools = gen.Pools(b, mdl, None)
+rng = random.Random(int(sys.argv[2]))
+out = []
+for i in range(int(sys.argv[3])):
+    f = pools.random_factors(rng, max_factors=3, max_exp=3, hostile=0.6, prefix_prob=0.4)
+    term = pools.factors_term(f)
+    if rng.random() < 0.3:
+        term = ["pow", term, rng.choice([-2, -1, 2])]
+    try:
+        u = mdl.eval_real(term)
+        out.append([term, base64.b64encode(pickle.dumps(u, rng.choice([2, 3, 4, 5]))).decode()])
+    except Exception:
+        pass
+print(json.dumps(out))
+"""
+
+
+def foreign_pickles(ctx, n):
+    try:
+        p = subprocess.run([sys.executable, "-B", "-c", DUMPER, core.VERIF, str(ctx.seed), str(n)], capture_output=True, text=True, timeout=300, env=synth.child_env())
+        return json.loads(p.stdout)
+    except Exception as e:
+        ctx.count("foreign_pickle_dumper_failed")
+        return []
+
+
 def run(ctx):
     rng = ctx.rng
-    n = ctx.scale(64, 3000)
+    n = ctx.scale(160, 4000)
+    blobs = foreign_pickles(ctx, 3 * n)
     specs = [{"seed": ctx.seed * 1000003 + 1, "steps": 0, "probes": PROBES, "base_width": 10}]  # the empty history
     for i in range(n):
         specs.append({"seed": ctx.seed * 1000003 + 7 * i + 11, "steps": rng.randint(5, 40), "probes": PROBES, "base_width": 10,
-                      "define_dimension": ctx.tier == "thorough" and i % 5 == 0})
+                      "define_dimension": ctx.tier == "thorough" and i % 5 == 0,
+                      "foreign_pickles": blobs[3 * i:3 * i + 3] if not (ctx.tier == "thorough" and i % 5 == 0) else []})
     with ThreadPoolExecutor(max_workers=14) as ex:
         results = list(ex.map(run_worker, specs))
     panel = {}   # probe term -> {dimension exponents (as tuple) -> first seed}
@@ -91,6 +125,7 @@ def run(ctx):
     ctx.extra["registration_sites_observed"] = sites
     ctx.require("units_swept", 100)
     ctx.require("probe_expressions_compared", 10)
+    ctx.require("foreign_pickles_loaded", 5)
     needed = ["Unit._multiply", "Unit._divide", "Unit.__pow__", "Unit.root", "Unit.as_ratio", "Unit.quantify", "Prefix.__mul__"]
     missing = [s for s in needed if s not in sites]
     if missing:
